@@ -4,6 +4,7 @@
 -/
 import ProphyModel.Properties.C15
 import ProphyModel.Lemmas.TopoComplete
+import ProphyModel.Generated.ProphycSizes
 namespace Prophy.C15
 open Prophy Prophy.Topo
 
@@ -16,6 +17,10 @@ theorem C15_sort_dag (g : List TNode) (rank : String → Nat)
   obtain ⟨r, h⟩ := Topo.sort_complete' g rank hr
   exact ⟨r, h, C15_sort_permutation g r h, C15_sort_ordered g r h⟩
 
+
+/-- T1 obligation: the names the sorter takes as already defined are exactly the keys of `BUILTIN_SIZES` as extracted from
+    prophyc/model.py on this run (they used to include `r8` and `r16`: finding D78) -/
+theorem C15_builtins_are_source : Topo.builtins = Generated.builtinSizes.map (·.1) := by decide
 
 /-- non-vacuity: a reverse chain (the maximal number of rotations at the first position) -/
 example : (sort [⟨"D", ["C"]⟩, ⟨"C", ["B"]⟩, ⟨"B", ["A"]⟩, ⟨"A", []⟩]).map (·.map (·.name)) = some ["A", "B", "C", "D"] := by decide
